@@ -606,3 +606,15 @@ print('NOT-REPRODUCED'); sys.exit(0)
 '''
 
 PROBES = [("constants: equal-but-different objects are refused; falsy instances answer with their own Parameter", GUARD_PROBE)]
+
+
+# a restored object (copy, unpickled, built by __setstate__ from whatever state) is a constructed one: its
+# constants are locked (verified for C17, with the scenario replay of __setstate__)
+_c14_base_ss = contracts
+
+
+def contracts():
+    from contracts import c17 as _c17
+    c = _c17.setstate_tail_contract()
+    c.prop = PROP
+    return _c14_base_ss() + [c]
